@@ -137,6 +137,7 @@ OVERLAP = dict(
     p_q_near_output=0.8, w_probe=4, p_plant=0.2)
 NESTED_FAIL = dict(
     FAILURE_HEAVY, p_fail_after_nested=0.5, n_steps=(3, 6),
+    p_chain_family=0.55,
     p_mutate_step=0.1, p_clean_step=0.25, w_probe=4, p_chain=0.7,
     n_paths=(2, 5), n_init=(0, 2))
 
